@@ -4,8 +4,9 @@ import CV.Proofs.HuffHeap
 
 Every vertex of a `Tree` carries the index it has in the Rust arrays: leaves are symbols
 `0 … n-1`, the internal node created in the `k`-th loop iteration is `n + k`.  `treeLoop`
-replays the heap discipline of the two constructors (it ignores weight overflow) and returns the
-tree by *splitting* the leaf that stands for a merged pair — there is no forest.
+replays the heap discipline of the two constructors for an arbitrary weight type (`WeightOps`;
+`none` if an addition panics) and returns the tree by *splitting* the leaf that stands for a
+merged pair — there is no forest.  Nothing in this file depends on the weight values.
 -/
 namespace CV.Huff
 
@@ -136,31 +137,38 @@ theorem height_le_inner : ∀ (t : Tree), t.height ≤ t.inner.length
 
 end Tree
 
+section
+variable {α : Type} (ops : WeightOps α)
+
 /-- the heap holds pairwise distinct indices, all below the next fresh index -/
-def HeapOK (heap : List (Nat × Nat)) (next : Nat) : Prop :=
+def HeapOK (heap : List (α × Nat)) (next : Nat) : Prop :=
   (heap.map (·.2)).Nodup ∧ ∀ p ∈ heap, p.2 < next
 
-/-- the tree the two constructors build (weight overflow ignored) -/
-def treeLoop : Nat → List (Nat × Nat) → Nat → Option Tree
+/-- the tree the two constructors build (`none`: an addition panicked) -/
+def treeLoop : Nat → List (α × Nat) → Nat → Option Tree
   | 0, _, _ => none
   | fuel + 1, heap, next =>
-    match popMin heap with
+    match popMin ops heap with
     | none => none
     | some (a, h1) =>
-      match popMin h1 with
+      match popMin ops h1 with
       | none => some (.leaf a.2)
       | some (b, h2) =>
-        (treeLoop fuel ((a.1 + b.1, next) :: h2) (next + 1)).map (Tree.split next a.2 b.2)
+        match addPush ops a.1 b.1 h2 with
+        | .error _ => none
+        | .ok w => (treeLoop fuel ((w, next) :: h2) (next + 1)).map (Tree.split next a.2 b.2)
 
-theorem pop2_perm {heap h1 h2 : List (Nat × Nat)} {a b : Nat × Nat}
-    (e1 : popMin heap = some (a, h1)) (e2 : popMin h1 = some (b, h2)) :
+variable {ops}
+
+theorem pop2_perm {heap h1 h2 : List (α × Nat)} {a b : α × Nat}
+    (e1 : popMin ops heap = some (a, h1)) (e2 : popMin ops h1 = some (b, h2)) :
     heap.Perm (a :: b :: h2) :=
   (popMin_perm e1).trans (List.Perm.cons _ (popMin_perm e2))
 
 /-- facts about one loop iteration -/
-theorem pop2_facts {heap h1 h2 : List (Nat × Nat)} {a b : Nat × Nat} {next : Nat}
+theorem pop2_facts {heap h1 h2 : List (α × Nat)} {a b : α × Nat} {next : Nat}
     (hok : HeapOK heap next)
-    (e1 : popMin heap = some (a, h1)) (e2 : popMin h1 = some (b, h2)) (w : Nat) :
+    (e1 : popMin ops heap = some (a, h1)) (e2 : popMin ops h1 = some (b, h2)) (w : α) :
     a.2 < next ∧ b.2 < next ∧ a.2 ≠ b.2 ∧ a.2 ∉ h2.map (·.2) ∧ b.2 ∉ h2.map (·.2) ∧
     heap.length = h2.length + 2 ∧ HeapOK ((w, next) :: h2) (next + 1) := by
   have hp := pop2_perm e1 e2
@@ -184,70 +192,80 @@ theorem pop2_facts {heap h1 h2 : List (Nat × Nat)} {a b : Nat × Nat} {next : N
     · have := hlt p (by simp [h]); omega
 
 /-- shape facts about `treeLoop` -/
-theorem treeLoop_spec : ∀ (fuel : Nat) (heap : List (Nat × Nat)) (next : Nat),
-    HeapOK heap next → fuel = heap.length → heap ≠ [] →
-    ∃ T, treeLoop fuel heap next = some T ∧
+theorem treeLoop_spec : ∀ (fuel : Nat) (heap : List (α × Nat)) (next : Nat),
+    HeapOK heap next → fuel = heap.length → ∀ T, treeLoop ops fuel heap next = some T →
       T.leaves.Perm (heap.map (·.2)) ∧
       (∀ i ∈ T.inner, next ≤ i ∧ i + 1 < next + heap.length) ∧
       T.inner.length + 1 = heap.length ∧
       (2 ≤ heap.length → T.rootId = next + heap.length - 2) ∧
       (∀ p, heap = [p] → T = .leaf p.2)
-  | 0, heap, _, _, hf, hne => by
-    exact absurd (List.eq_nil_of_length_eq_zero hf.symm) hne
-  | fuel + 1, heap, next, hok, hf, hne => by
-    obtain ⟨a, h1, e1⟩ := popMin_isSome hne
-    simp only [treeLoop, e1]
-    cases e2 : popMin h1 with
-    | none =>
-      have h1nil := popMin_eq_none.mp e2
-      subst h1nil
-      have hp := popMin_perm e1
-      have hheap : heap = [a] := List.perm_singleton.mp hp
-      subst hheap
-      refine ⟨.leaf a.2, rfl, by simp [Tree.leaves], by simp [Tree.inner], by simp [Tree.inner],
-        by simp, ?_⟩
-      intro p hp; simp at hp; subst hp; rfl
-    | some bh =>
-      obtain ⟨b, h2⟩ := bh
-      obtain ⟨ha, hb, hab, ha2, hb2, hlen, hok'⟩ := pop2_facts hok e1 e2 (a.1 + b.1)
-      have hp := pop2_perm e1 e2
-      obtain ⟨T', hT', hleaves, hinner, hcount, hroot, hsingle⟩ :=
-        treeLoop_spec fuel ((a.1 + b.1, next) :: h2) (next + 1) hok'
-          (by simp; omega) (by simp)
-      have hnd' : T'.leaves.Nodup := hleaves.nodup_iff.mpr hok'.1
-      have hz : next ∈ T'.leaves := hleaves.mem_iff.mpr (by simp)
-      refine ⟨Tree.split next a.2 b.2 T', by simp [hT'], ?_, ?_, ?_, ?_, ?_⟩
-      · refine (Tree.leaves_split next a.2 b.2 T' hz hnd').trans ?_
-        have h3 : (T'.leaves.erase next).Perm (h2.map (·.2)) := by
-          have := hleaves.erase next
-          simpa using this
-        refine ((h3.cons b.2).cons a.2).trans ?_
-        simpa using (hp.map (·.2)).symm
-      · intro i hi
-        rcases Tree.inner_split_mem next a.2 b.2 T' i hi with rfl | hi'
-        · omega
-        · have := hinner i hi'
-          simp only [List.length_cons] at this
-          omega
-      · rw [Tree.inner_split_length next a.2 b.2 T' hz hnd']
-        simp only [List.length_cons] at hcount
-        omega
-      · intro _
-        rw [Tree.rootId_split]
-        by_cases h2e : h2 = []
-        · subst h2e
-          have := hsingle _ rfl
-          subst this
-          simp [Tree.rootId] at *; omega
-        · have hl2 : 1 ≤ h2.length := by
-            cases h2 with
-            | nil => exact absurd rfl h2e
-            | cons _ _ => simp
-          have := hroot (by simp; omega)
-          simp only [List.length_cons] at this
-          omega
-      · intro p hp'
-        subst hp'
-        simp at hlen
+  | 0, heap, _, _, _, T, hT => by simp [treeLoop] at hT
+  | fuel + 1, heap, next, hok, hf, T, hT => by
+    simp only [treeLoop] at hT
+    cases e1 : popMin ops heap with
+    | none => simp [e1] at hT
+    | some ah =>
+      obtain ⟨a, h1⟩ := ah
+      simp only [e1] at hT
+      cases e2 : popMin ops h1 with
+      | none =>
+        simp only [e2] at hT
+        injection hT with hT; subst hT
+        have h1nil := (popMin_eq_none ops).mp e2
+        subst h1nil
+        have hp := popMin_perm e1
+        have hheap : heap = [a] := List.perm_singleton.mp hp
+        subst hheap
+        refine ⟨by simp [Tree.leaves], by simp [Tree.inner], by simp [Tree.inner], by simp, ?_⟩
+        intro p hp; simp at hp; subst hp; rfl
+      | some bh =>
+        obtain ⟨b, h2⟩ := bh
+        simp only [e2] at hT
+        cases hadd : addPush ops a.1 b.1 h2 with
+        | error f => simp [hadd] at hT
+        | ok w =>
+          simp only [hadd, Option.map_eq_some_iff] at hT
+          obtain ⟨T', hT', rfl⟩ := hT
+          obtain ⟨ha, hb, hab, ha2, hb2, hlen, hok'⟩ := pop2_facts hok e1 e2 w
+          have hp := pop2_perm e1 e2
+          obtain ⟨hleaves, hinner, hcount, hroot, hsingle⟩ :=
+            treeLoop_spec fuel ((w, next) :: h2) (next + 1) hok' (by simp; omega) T' hT'
+          have hnd' : T'.leaves.Nodup := hleaves.nodup_iff.mpr hok'.1
+          have hz : next ∈ T'.leaves := hleaves.mem_iff.mpr (by simp)
+          refine ⟨?_, ?_, ?_, ?_, ?_⟩
+          · refine (Tree.leaves_split next a.2 b.2 T' hz hnd').trans ?_
+            have h3 : (T'.leaves.erase next).Perm (h2.map (·.2)) := by
+              have := hleaves.erase next
+              simpa using this
+            refine ((h3.cons b.2).cons a.2).trans ?_
+            simpa using (hp.map (·.2)).symm
+          · intro i hi
+            rcases Tree.inner_split_mem next a.2 b.2 T' i hi with rfl | hi'
+            · omega
+            · have := hinner i hi'
+              simp only [List.length_cons] at this
+              omega
+          · rw [Tree.inner_split_length next a.2 b.2 T' hz hnd']
+            simp only [List.length_cons] at hcount
+            omega
+          · intro _
+            rw [Tree.rootId_split]
+            by_cases h2e : h2 = []
+            · subst h2e
+              have := hsingle _ rfl
+              subst this
+              simp [Tree.rootId] at *; omega
+            · have hl2 : 1 ≤ h2.length := by
+                cases h2 with
+                | nil => exact absurd rfl h2e
+                | cons _ _ => simp
+              have := hroot (by simp; omega)
+              simp only [List.length_cons] at this
+              omega
+          · intro p hp'
+            subst hp'
+            simp at hlen
+
+end
 
 end CV.Huff
